@@ -1,15 +1,22 @@
-# Per-property driver configuration (see ./check). variants: which binaries to
-# run (normal / -race), into how many child processes the fixed case list is
-# split, and the per-child stop-waiting bound (seconds; never a verdict).
-Q = {"quick": 600, "thorough": 3300}
+"""Per-property driver configuration, one JSON file per claimed property in
+cfg/<ID>.json:
+  variants:   list of {name, race(bool), nbatch (int or {quick,thorough}),
+              timeout {quick,thorough} seconds (stop-waiting bound per child,
+              never a verdict), parallel (max children at once), env,
+              thorough_only}
+  race_rule:  regex on the innermost non-runtime frame of a race report that
+              makes the report a violation of this property (else recorded only)
+  hang_is_violation: whether a re-confirmed non-terminating case with a running
+              ecal goroutine is a violation (default true)
+  level, assumptions, technique, level_text, level_note: manifest/evidence texts
+"""
+import json, os, glob
 
-CHECKS = {
-    "C17": {
-        "variants": [{"name": "normal", "nbatch": 16, "timeout": Q}],
-        "level": "exploration",
-        "assumptions": [
-            "lexical containment is judged by an independent segment-stack resolver (no symlinks are created in the sandbox tree)",
-            "an error is always an acceptable answer (the statement allows it)",
-        ],
-    },
-}
+_D = os.path.join(os.path.dirname(os.path.abspath(__file__)), "cfg")
+DEFAULT_TIMEOUT = {"quick": 600, "thorough": 3300}
+CHECKS = {}
+for _f in sorted(glob.glob(os.path.join(_D, "C*.json"))):
+    _c = json.load(open(_f))
+    for _v in _c["variants"]:
+        _v.setdefault("timeout", DEFAULT_TIMEOUT)
+    CHECKS[os.path.basename(_f)[:-5]] = _c
